@@ -21,6 +21,8 @@ const (
 	sClean
 	sReopen
 	sCompactRange // arbitrary contiguous range (export shim): makes handles stale by a compaction below the top table
+	sHold         // NewAddition + Add*, kept open over the following steps: the write lock stays taken
+	sRelease      // the held Addition is committed (Commit) or abandoned (Close)
 )
 
 type c09Op struct {
@@ -32,6 +34,8 @@ type c09Op struct {
 	// Overlap (sAddition with >= 2 tables): the last table is written with limits that start AT
 	// the previous table's maximum instead of above it; the Addition must refuse it
 	Overlap bool `json:"overlap,omitempty"`
+	// Commit (sRelease): commit the held Addition instead of abandoning it
+	Commit bool `json:"commit,omitempty"`
 }
 
 type c09Case struct {
@@ -54,8 +58,17 @@ func genC09(t *rapid.T) c09Case {
 	n := rapid.IntRange(4, 30).Draw(t, "nops")
 	for i := 0; i < n; i++ {
 		op := c09Op{H: rapid.IntRange(0, c.NHandles-1).Draw(t, "h")}
-		k := rapid.IntRange(0, 19).Draw(t, "opK")
+		k := rapid.IntRange(0, 23).Draw(t, "opK")
 		switch {
+		case k == 20 || k == 21:
+			op.Kind = sHold
+			m := rapid.IntRange(0, 2).Draw(t, "ntx")
+			for j := 0; j < m; j++ {
+				op.Txs = append(op.Txs, nonEmptyTx(t, o))
+			}
+		case k >= 22:
+			op.Kind = sRelease
+			op.Commit = rapid.Bool().Draw(t, "commit")
 		case k < 10:
 			op.Kind = sAdd
 			op.Txs = []HTx{nonEmptyTx(t, o)}
@@ -101,7 +114,8 @@ func dirState(dir string) string {
 
 type handle struct {
 	st   *reftable.Stack
-	snap *Store // the committed state this handle last loaded
+	snap *Store // the committed state this handle last loaded, as far as the harness knows
+	ver  int    // index of snap in the list of committed versions
 }
 
 func propC09(c c09Case, o *Obs) error {
@@ -111,13 +125,16 @@ func propC09(c c09Case, o *Obs) error {
 	store := NewStore()
 	var maxCommitted uint64
 	hs := make([]*handle, c.NHandles)
+	// every committed state so far, oldest first (a compaction commits no new state)
+	versions := []*Store{store.Clone()}
+	commit := func() { versions = append(versions, store.Clone()) }
 	open := func(i int) error {
 		st, err := reftable.NewStack(dir, cfg)
 		if err != nil {
 			return Failf("C09/open", "NewStack: %v", err)
 		}
 		st.VerifSetAutoCompact(c.Auto[i])
-		hs[i] = &handle{st: st, snap: store.Clone()}
+		hs[i] = &handle{st: st, snap: store.Clone(), ver: len(versions) - 1}
 		return nil
 	}
 	for i := range hs {
@@ -136,7 +153,8 @@ func propC09(c c09Case, o *Obs) error {
 		return h.st.String() != fmt.Sprintf("%v", ReadList(dir))
 	}
 	staleWrites, staleByAdd, staleByCompact := 0, 0, 0
-	lastChange := "" // what made the list change last: "add" or "compact"
+	refreshedElsewhere := 0 // a handle moved to a newer version at a moment the property does not fix
+	lastChange := ""        // what made the list change last: "add" or "compact"
 
 	// add runs one Add through handle h and returns its error; on success the model is updated.
 	add := func(h *handle, tx HTx) error {
@@ -156,191 +174,391 @@ func propC09(c c09Case, o *Obs) error {
 			if max > maxCommitted {
 				maxCommitted = max
 			}
-			h.snap = store.Clone()
+			commit()
+			h.snap, h.ver = store.Clone(), len(versions)-1
 		}
 		return err
 	}
 
+	// a held Addition: handle `holder` keeps the write lock over several steps
+	holder := -1
+	var held *reftable.Addition
+	var heldStore *Store
+	var heldTop uint64
+	failedUnderLock := -1 // handle whose Add failed most recently while the lock was held
+	var failedTx HTx
+	heldSteps, addsUnderLock := 0, 0
+	release := func(what string, doCommit bool) error {
+		hh := hs[holder]
+		if doCommit {
+			if err := held.Commit(); err != nil {
+				held.Close()
+				return Failf("C09/held-commit-failed", "%s: Commit of an Addition that held the lock throughout: %v", what, err)
+			}
+			held.Close()
+			if heldTop != 0 {
+				store = heldStore
+				if heldTop > maxCommitted {
+					maxCommitted = heldTop
+				}
+				commit()
+				lastChange = "add"
+			}
+			hh.snap, hh.ver = store.Clone(), len(versions)-1
+			failedUnderLock = -1
+		} else {
+			before := fmt.Sprintf("%v", ReadList(dir))
+			held.Close()
+			if after := fmt.Sprintf("%v", ReadList(dir)); after != before {
+				return Failf("C09/abandon-changed-list", "%s: abandoning an Addition changed tables.list from %s to %s", what, before, after)
+			}
+		}
+		holder, held = -1, nil
+		if !doCommit && failedUnderLock >= 0 {
+			// the Add that failed only because the lock was taken: the handle was refreshed then,
+			// nothing has been committed since, so its retry must succeed now
+			fh := hs[failedUnderLock]
+			failedUnderLock = -1
+			if err := add(fh, failedTx); err != nil {
+				if _, isV := err.(*Violation); isV {
+					return err
+				}
+				return Failf("C09/retry-after-lock-released", "%s: retry of an Add that had failed while another handle held the lock (which was then given back without a commit) returned %v", what, err)
+			}
+			lastChange = "add"
+		}
+		return nil
+	}
+	defer func() {
+		if held != nil {
+			held.Close()
+		}
+	}()
+
 	for i, op := range c.Ops {
 		h := hs[op.H]
 		what := fmt.Sprintf("step %d handle %d", i, op.H)
-		stale := isStale(h)
-		if up, err := h.st.UpToDate(); err != nil || up == stale {
-			return Failf("C09/uptodate", "%s: UpToDate() = %v,%v but the handle's tables %s vs tables.list %v", what, up, err, h.st.String(), ReadList(dir))
-		}
-		beforeDir := dirState(dir)
-		beforeList := fmt.Sprintf("%v", ReadList(dir))
-		if stale && op.Kind != sReopen {
-			staleWrites++
-			if lastChange == "add" {
-				staleByAdd++
-			} else {
-				staleByCompact++
+		if op.Kind == sRelease {
+			if holder < 0 {
+				continue
 			}
-		}
-		switch op.Kind {
-		case sAdd:
-			err := add(h, op.Txs[0])
-			if stale {
+			if err := release(what, op.Commit); err != nil {
+				return err
+			}
+		} else if holder >= 0 {
+			heldSteps++
+			if op.H == holder || op.Kind == sHold {
+				continue // the holder does nothing else while its Addition is open
+			}
+			stale := isStale(h)
+			beforeDir := dirState(dir)
+			switch op.Kind {
+			case sAdd:
+				addsUnderLock++
+				err := add(h, op.Txs[0])
 				if err != reftable.ErrLockFailure {
-					return Failf("C09/stale-add-result", "%s: Add through a stale handle returned %v, want ErrLockFailure", what, err)
+					return Failf("C09/add-under-foreign-lock", "%s: Add while another handle holds the write lock returned %v, want ErrLockFailure", what, err)
 				}
 				if d := dirState(dir); d != beforeDir {
-					return Failf("C09/stale-add-changed-dir", "%s: failed Add changed the directory:\nbefore %s\nafter  %s", what, beforeDir, d)
+					return Failf("C09/failed-add-changed-dir", "%s: Add that failed on the held lock changed the directory:\nbefore %s\nafter  %s", what, beforeDir, d)
 				}
+				// "After a failed Add the handle has been refreshed to the current list"
 				if up, err := h.st.UpToDate(); err != nil || !up {
-					return Failf("C09/not-refreshed", "%s: after the failed Add UpToDate() = %v,%v", what, up, err)
+					return Failf("C09/not-refreshed", "%s: after an Add that failed on a held lock (handle was stale: %v) UpToDate() = %v,%v", what, stale, up, err)
 				}
-				if n := h.st.NextUpdateIndex(); n <= maxCommitted {
-					return Failf("C09/next-index", "%s: after the failed Add NextUpdateIndex() = %d, committed max %d", what, n, maxCommitted)
-				}
-				h.snap = store.Clone()
-				if err := CompareView("C09/refreshed-view", what+" (after refresh)", h.st, store); err != nil {
+				h.snap, h.ver = store.Clone(), len(versions)-1
+				if err := CompareView("C09/refreshed-view", what+" (after the Add that failed on the held lock)", h.st, store); err != nil {
 					return err
 				}
-				if err := add(h, op.Txs[0]); err != nil {
-					if _, isV := err.(*Violation); isV {
-						return err
-					}
-					return Failf("C09/retry-failed", "%s: immediate retry after the failed Add returned %v", what, err)
-				}
-				lastChange = "add"
-			} else {
-				if err != nil {
-					if _, isV := err.(*Violation); isV {
-						return err
-					}
-					return Failf("C09/fresh-add-failed", "%s: Add through an up-to-date handle failed: %v", what, err)
-				}
-				lastChange = "add"
-			}
-		case sAddition:
-			tr, err := h.st.NewAddition()
-			if stale {
+				failedUnderLock, failedTx = op.H, op.Txs[0]
+			case sAddition:
+				tr, err := h.st.NewAddition()
 				if err != reftable.ErrLockFailure {
 					if tr != nil {
 						tr.Close()
 					}
-					return Failf("C09/stale-addition-result", "%s: NewAddition through a stale handle returned %v, want ErrLockFailure", what, err)
+					return Failf("C09/addition-under-foreign-lock", "%s: NewAddition while another handle holds the write lock returned %v, want ErrLockFailure", what, err)
 				}
 				if d := dirState(dir); d != beforeDir {
-					return Failf("C09/stale-addition-changed-dir", "%s: failed NewAddition changed the directory:\nbefore %s\nafter  %s", what, beforeDir, d)
+					return Failf("C09/failed-addition-changed-dir", "%s: NewAddition that failed on the held lock changed the directory:\nbefore %s\nafter  %s", what, beforeDir, d)
 				}
-				break
-			}
-			if err != nil {
-				return Failf("C09/fresh-addition-failed", "%s: NewAddition through an up-to-date handle failed: %v", what, err)
-			}
-			next := h.st.NextUpdateIndex()
-			tmp := store.Clone()
-			var top uint64
-			refusedOverlap := false
-			for j, tx := range op.Txs {
-				min := next + uint64(tx.Gap)
-				if op.Overlap && j == len(op.Txs)-1 && j > 0 {
-					// update-index ranges of one stack must be strictly increasing: a table that
-					// starts at the previous table's maximum has to be refused, and nothing of
-					// this Addition may become visible
-					min = next - 1
-					refs, logs, max := tx.Resolve(min, tmp, c.Cfg)
-					err := tr.Add(WriteFn(min, max, refs, logs))
-					if err == nil {
-						tr.Close()
-						return Failf("C09/overlapping-table-accepted", "%s: Addition.Add accepted a table with limits [%d,%d] after a table ending at %d", what, min, max, next-1)
+			case sCompactAll, sAutoCompact, sClean, sCompactRange:
+				var err error
+				switch op.Kind {
+				case sCompactRange:
+					n := len(tableNames(h.st, dir))
+					if n == 0 || !reftable.VerifExportAvailable {
+						continue
 					}
-					refusedOverlap = true
+					first, last := op.A%n, op.B%n
+					if first > last {
+						first, last = last, first
+					}
+					_, err = h.st.VerifCompactRange(first, last, nil)
+				case sCompactAll:
+					if h.st.String() == "[]" {
+						continue
+					}
+					err = h.st.CompactAll(nil)
+				case sAutoCompact:
+					err = h.st.AutoCompact()
+				case sClean:
+					if h.st.String() == "[]" {
+						continue
+					}
+					err = h.st.Clean()
+				}
+				if err != nil && err != reftable.ErrLockFailure && !stale {
+					return Failf("C09/maintenance-under-foreign-lock", "%s: op %d through an up-to-date handle while another handle holds the write lock returned %v (only lock contention may fail)", what, op.Kind, err)
+				}
+				if d := dirState(dir); d != beforeDir {
+					return Failf("C09/maintenance-under-lock-changed-dir", "%s: op %d while another handle holds the write lock (err=%v) changed the directory:\nbefore %s\nafter  %s", what, op.Kind, err, beforeDir, d)
+				}
+			case sReopen:
+				h.st.Close()
+				if err := open(op.H); err != nil {
+					return err
+				}
+			}
+		} else {
+			stale := isStale(h)
+			if up, err := h.st.UpToDate(); err != nil || up == stale {
+				return Failf("C09/uptodate", "%s: UpToDate() = %v,%v but the handle's tables %s vs tables.list %v", what, up, err, h.st.String(), ReadList(dir))
+			}
+			beforeDir := dirState(dir)
+			beforeList := fmt.Sprintf("%v", ReadList(dir))
+			if stale && op.Kind != sReopen {
+				staleWrites++
+				if lastChange == "add" {
+					staleByAdd++
+				} else {
+					staleByCompact++
+				}
+			}
+			switch op.Kind {
+			case sAdd:
+				err := add(h, op.Txs[0])
+				if stale {
+					if err != reftable.ErrLockFailure {
+						return Failf("C09/stale-add-result", "%s: Add through a stale handle returned %v, want ErrLockFailure", what, err)
+					}
+					if d := dirState(dir); d != beforeDir {
+						return Failf("C09/stale-add-changed-dir", "%s: failed Add changed the directory:\nbefore %s\nafter  %s", what, beforeDir, d)
+					}
+					if up, err := h.st.UpToDate(); err != nil || !up {
+						return Failf("C09/not-refreshed", "%s: after the failed Add UpToDate() = %v,%v", what, up, err)
+					}
+					if n := h.st.NextUpdateIndex(); n <= maxCommitted {
+						return Failf("C09/next-index", "%s: after the failed Add NextUpdateIndex() = %d, committed max %d", what, n, maxCommitted)
+					}
+					h.snap, h.ver = store.Clone(), len(versions)-1
+					if err := CompareView("C09/refreshed-view", what+" (after refresh)", h.st, store); err != nil {
+						return err
+					}
+					if err := add(h, op.Txs[0]); err != nil {
+						if _, isV := err.(*Violation); isV {
+							return err
+						}
+						return Failf("C09/retry-failed", "%s: immediate retry after the failed Add returned %v", what, err)
+					}
+					lastChange = "add"
+				} else {
+					if err != nil {
+						if _, isV := err.(*Violation); isV {
+							return err
+						}
+						return Failf("C09/fresh-add-failed", "%s: Add through an up-to-date handle failed: %v", what, err)
+					}
+					lastChange = "add"
+				}
+			case sAddition:
+				tr, err := h.st.NewAddition()
+				if stale {
+					if err != reftable.ErrLockFailure {
+						if tr != nil {
+							tr.Close()
+						}
+						return Failf("C09/stale-addition-result", "%s: NewAddition through a stale handle returned %v, want ErrLockFailure", what, err)
+					}
+					if d := dirState(dir); d != beforeDir {
+						return Failf("C09/stale-addition-changed-dir", "%s: failed NewAddition changed the directory:\nbefore %s\nafter  %s", what, beforeDir, d)
+					}
 					break
 				}
-				refs, logs, max := tx.Resolve(min, tmp, c.Cfg)
-				if err := tr.Add(WriteFn(min, max, refs, logs)); err != nil {
-					tr.Close()
-					return Failf("C09/addition-add-failed", "%s: Addition.Add: %v", what, err)
-				}
-				tmp.Apply(refs, NormLogs(logs, c.Cfg))
-				next = max + 1
-				top = max
-			}
-			if refusedOverlap {
-				tr.Close() // abandoned: the model stays as it was
-				if d := dirState(dir); d != beforeDir {
-					return Failf("C09/refused-addition-changed-dir", "%s: an Addition whose last table was refused left the directory changed:\nbefore %s\nafter  %s", what, beforeDir, d)
-				}
-				break
-			}
-			if err := tr.Commit(); err != nil {
-				tr.Close()
-				return Failf("C09/commit-failed", "%s: Commit: %v", what, err)
-			}
-			tr.Close()
-			store = tmp
-			if top > maxCommitted {
-				maxCommitted = top
-			}
-			h.snap = store.Clone()
-			lastChange = "add"
-		case sCompactAll, sAutoCompact, sClean, sCompactRange:
-			var err error
-			switch op.Kind {
-			case sCompactRange:
-				n := len(tableNames(h.st, dir))
-				if n == 0 || !reftable.VerifExportAvailable {
-					continue
-				}
-				first, last := op.A%n, op.B%n
-				if first > last {
-					first, last = last, first
-				}
-				var ok bool
-				ok, err = h.st.VerifCompactRange(first, last, nil)
-				if !stale && err == nil && !ok {
-					err = fmt.Errorf("compaction of [%d,%d] reported failure without an error", first, last)
-				}
-			case sCompactAll:
-				if !stale && len(ReadList(dir)) == 0 {
-					continue
-				}
-				if stale && h.st.String() == "[]" {
-					continue // CompactAll on a handle that sees no tables is outside the property
-				}
-				err = h.st.CompactAll(nil)
-			case sAutoCompact:
-				err = h.st.AutoCompact()
-			case sClean:
-				if h.st.String() == "[]" && !stale {
-					continue // Clean on an empty stack is checked by C16
-				}
-				err = h.st.Clean()
-			}
-			if stale {
-				// "do nothing or fail": any return value, but nothing may change
-				if d := dirState(dir); d != beforeDir {
-					return Failf("C09/stale-maintenance-changed-dir", "%s: op %d through a stale handle (err=%v) changed the directory:\nbefore %s\nafter  %s", what, op.Kind, err, beforeDir, d)
-				}
-			} else {
 				if err != nil {
-					return Failf("C09/fresh-maintenance-failed", "%s: op %d through an up-to-date handle failed: %v", what, op.Kind, err)
+					return Failf("C09/fresh-addition-failed", "%s: NewAddition through an up-to-date handle failed: %v", what, err)
 				}
-				if fmt.Sprintf("%v", ReadList(dir)) != beforeList {
-					lastChange = "compact"
+				next := h.st.NextUpdateIndex()
+				tmp := store.Clone()
+				var top uint64
+				refusedOverlap := false
+				for j, tx := range op.Txs {
+					min := next + uint64(tx.Gap)
+					if op.Overlap && j == len(op.Txs)-1 && j > 0 {
+						// update-index ranges of one stack must be strictly increasing: a table that
+						// starts at the previous table's maximum has to be refused, and nothing of
+						// this Addition may become visible
+						min = next - 1
+						refs, logs, max := tx.Resolve(min, tmp, c.Cfg)
+						err := tr.Add(WriteFn(min, max, refs, logs))
+						if err == nil {
+							tr.Close()
+							return Failf("C09/overlapping-table-accepted", "%s: Addition.Add accepted a table with limits [%d,%d] after a table ending at %d", what, min, max, next-1)
+						}
+						refusedOverlap = true
+						break
+					}
+					refs, logs, max := tx.Resolve(min, tmp, c.Cfg)
+					if err := tr.Add(WriteFn(min, max, refs, logs)); err != nil {
+						tr.Close()
+						return Failf("C09/addition-add-failed", "%s: Addition.Add: %v", what, err)
+					}
+					tmp.Apply(refs, NormLogs(logs, c.Cfg))
+					next = max + 1
+					top = max
 				}
-				h.snap = store.Clone()
+				if refusedOverlap {
+					tr.Close() // abandoned: the model stays as it was
+					if d := dirState(dir); d != beforeDir {
+						return Failf("C09/refused-addition-changed-dir", "%s: an Addition whose last table was refused left the directory changed:\nbefore %s\nafter  %s", what, beforeDir, d)
+					}
+					break
+				}
+				if err := tr.Commit(); err != nil {
+					tr.Close()
+					return Failf("C09/commit-failed", "%s: Commit: %v", what, err)
+				}
+				tr.Close()
+				store = tmp
+				if top > maxCommitted {
+					maxCommitted = top
+				}
+				commit()
+				h.snap, h.ver = store.Clone(), len(versions)-1
+				lastChange = "add"
+			case sCompactAll, sAutoCompact, sClean, sCompactRange:
+				var err error
+				switch op.Kind {
+				case sCompactRange:
+					n := len(tableNames(h.st, dir))
+					if n == 0 || !reftable.VerifExportAvailable {
+						continue
+					}
+					first, last := op.A%n, op.B%n
+					if first > last {
+						first, last = last, first
+					}
+					var ok bool
+					ok, err = h.st.VerifCompactRange(first, last, nil)
+					if !stale && err == nil && !ok {
+						err = fmt.Errorf("compaction of [%d,%d] reported failure without an error", first, last)
+					}
+				case sCompactAll:
+					if !stale && len(ReadList(dir)) == 0 {
+						continue
+					}
+					if stale && h.st.String() == "[]" {
+						continue // CompactAll on a handle that sees no tables is outside the property
+					}
+					err = h.st.CompactAll(nil)
+				case sAutoCompact:
+					err = h.st.AutoCompact()
+				case sClean:
+					if h.st.String() == "[]" && !stale {
+						continue // Clean on an empty stack is checked by C16
+					}
+					err = h.st.Clean()
+				}
+				if stale {
+					// "do nothing or fail": any return value, but nothing may change
+					if d := dirState(dir); d != beforeDir {
+						return Failf("C09/stale-maintenance-changed-dir", "%s: op %d through a stale handle (err=%v) changed the directory:\nbefore %s\nafter  %s", what, op.Kind, err, beforeDir, d)
+					}
+				} else {
+					if err != nil {
+						return Failf("C09/fresh-maintenance-failed", "%s: op %d through an up-to-date handle failed: %v", what, op.Kind, err)
+					}
+					if fmt.Sprintf("%v", ReadList(dir)) != beforeList {
+						lastChange = "compact"
+					}
+					h.snap, h.ver = store.Clone(), len(versions)-1
+				}
+			case sReopen:
+				h.st.Close()
+				if err := open(op.H); err != nil {
+					return err
+				}
+				h = hs[op.H]
+			case sHold:
+				tr, err := h.st.NewAddition()
+				if stale {
+					if err != reftable.ErrLockFailure {
+						if tr != nil {
+							tr.Close()
+						}
+						return Failf("C09/stale-addition-result", "%s: NewAddition through a stale handle returned %v, want ErrLockFailure", what, err)
+					}
+					if d := dirState(dir); d != beforeDir {
+						return Failf("C09/stale-addition-changed-dir", "%s: failed NewAddition changed the directory:\nbefore %s\nafter  %s", what, beforeDir, d)
+					}
+					break
+				}
+				if err != nil {
+					return Failf("C09/fresh-addition-failed", "%s: NewAddition through an up-to-date handle failed: %v", what, err)
+				}
+				next := h.st.NextUpdateIndex()
+				heldStore, heldTop = store.Clone(), 0
+				for _, tx := range op.Txs {
+					min := next + uint64(tx.Gap)
+					refs, logs, max := tx.Resolve(min, heldStore, c.Cfg)
+					if err := tr.Add(WriteFn(min, max, refs, logs)); err != nil {
+						tr.Close()
+						return Failf("C09/addition-add-failed", "%s: Addition.Add: %v", what, err)
+					}
+					heldStore.Apply(refs, NormLogs(logs, c.Cfg))
+					next, heldTop = max+1, max
+				}
+				holder, held = op.H, tr
+				failedUnderLock = -1
 			}
-		case sReopen:
-			h.st.Close()
-			if err := open(op.H); err != nil {
-				return err
-			}
-			h = hs[op.H]
 		}
 		if len(ReadList(dir)) == 0 {
 			// an emptied stack starts over at update index 1: nothing is left to be ordered against
 			maxCommitted = 0
 		}
-		// every handle shows the committed state it last loaded
+		// every handle shows one committed state, and never an older one than it showed before.
+		// Where the property fixes the moment of a refresh (open, successful Add, failed Add)
+		// the blocks above compared with that exact state; a handle may refresh at other
+		// moments too (nothing forbids a failed NewAddition or a refused Clean to reload), so
+		// here any committed version from the last known one onwards is accepted.
 		for j, hh := range hs {
-			if err := CompareView("C09/snapshot", fmt.Sprintf("%s: view of handle %d", what, j), hh.st, hh.snap); err != nil {
-				return err
+			refs, logs, err := ViewOf(hh.st)
+			if err != nil {
+				return Failf("C09/snapshot/read-error", "%s: view of handle %d: reading the stack failed: %v", what, j, err)
 			}
+			found := -1
+			for v := hh.ver; v < len(versions); v++ {
+				if DiffRefs(refs, versions[v].SortedRefs()) == "" && DiffLogs(logs, versions[v].SortedLogs()) == "" {
+					found = v
+					break
+				}
+			}
+			if found < 0 {
+				d := DiffRefs(refs, hh.snap.SortedRefs())
+				if d == "" {
+					d = DiffLogs(logs, hh.snap.SortedLogs())
+				}
+				return Failf("C09/snapshot/view", "%s: view of handle %d is none of the %d committed states from the one it last loaded onwards; against that one: %s", what, j, len(versions)-hh.ver, d)
+			}
+			if found != hh.ver {
+				hh.ver, hh.snap = found, versions[found]
+				refreshedElsewhere++
+			}
+		}
+	}
+	if holder >= 0 {
+		if err := release("end of the history", len(c.Ops)%2 == 0); err != nil {
+			return err
 		}
 	}
 	fresh, err := reftable.NewStack(dir, cfg)
@@ -352,6 +570,9 @@ func propC09(c c09Case, o *Obs) error {
 		return err
 	}
 	o.Count("stale_writes", staleWrites)
+	o.Count("steps_under_a_held_lock", heldSteps)
+	o.ClassIf(addsUnderLock > 0, "add-while-another-handle-holds-the-lock")
+	o.ClassIf(refreshedElsewhere > 0, "handle-refreshed-by-a-failed-NewAddition-or-maintenance")
 	o.ClassIf(staleByAdd > 0, "stale-by-addition")
 	o.ClassIf(staleByCompact > 0, "stale-by-compaction")
 	o.Nontrivial = staleWrites > 0
